@@ -199,5 +199,16 @@ def exec_ctor(case, out):
     """a tensor built from an uncompressed nest WITHOUT a declared shape; the nest may be ragged across parents (sub-lists of one parent have equal lengths,
     those of another parent may be longer): every stored coordinate must lie inside the shape the tensor reports"""
     depth = case["depth"]
+    if case.get("how") == "empty":
+        # the empty constructor without a shape: the tensor is populated, asked for its shape (and its fibers for their active ranges), populated further
+        t = Tensor(rank_ids=IDS[:depth])
+        for k, pts in enumerate(case["phases"]):
+            for pt in pts:
+                ref = t.getPayloadRef(*pt)
+                ref += 1
+            if k < len(case["phases"]) - 1:
+                _ = t.getShape(), t.getShape(authoritative=True), [x["act"] for x in fibers_of(t)]
+        out["fibers"] = fibers_of(t)
+        return
     t = Tensor.fromUncompressed(IDS[:depth], case["nest"])
     out["fibers"] = fibers_of(t)
